@@ -444,6 +444,30 @@ class C08(common.Prop):
                 case["_edited"] = ed
             except Exception:
                 case["_edited"] = None
+        # conversion of a NumPy body that holds binary64 arrays (built in memory, or the output of interpolate()): the converted
+        # bodies hold the same numbers - nothing is narrowed on the way - and a point is missing exactly when its confidence is 0
+        case["_f64"] = None
+        if int(np.prod(case["shape"])) > 0:
+            try:
+                F_, P_, T_, D_ = case["shape"]
+                d64 = np.array(case["data"], dtype=np.uint32).view(np.float32).reshape(F_, P_, T_, D_).astype(np.float64)
+                c64 = np.array(case["conf"], dtype=np.uint32).view(np.float32).reshape(F_, P_, T_).astype(np.float64)
+                d64 = np.where(np.isfinite(d64), d64 * (1.0 + 2.0 ** -40), d64)            # not representable in binary32
+                c64 = np.where(np.isfinite(c64) & (c64 != 0), c64 * 1e-60 if (F_ + T_) % 2 else c64 * (1.0 + 2.0 ** -40), c64)
+                nb64 = self.classes["numpy"](30.0, d64.copy(), c64.copy())
+                rec = {}
+                for kind in ("torch", "tensorflow"):
+                    try:
+                        cb = getattr(nb64, kind)()
+                        v = np.asarray(cb.data.tensor)
+                        rec[kind] = ["ok", str(v.dtype), bool(np.array_equal(v.astype(np.float64), d64, equal_nan=True)),
+                                     bool(np.array_equal(np.asarray(cb.confidence).astype(np.float64), c64, equal_nan=True)),
+                                     bool(np.array_equal(np.asarray(cb.data.mask).astype(bool), np.repeat((c64 != 0)[..., None], D_, axis=-1)))]
+                    except Exception as e:
+                        rec[kind] = ["err", type(e).__name__]
+                case["_f64"] = rec
+            except Exception:
+                case["_f64"] = None
         for j, op in enumerate(case["ops"]):
             for i, kind in enumerate(BACKENDS):
                 if bodies[i] is None:
@@ -729,6 +753,11 @@ class C08(common.Prop):
                 return {"what": "NumPy body written to in place, then .%s(): %s" % (kind, "raises " + rec[1] if rec[0] != "ok" else
                         "the converted body's missing pattern is not `confidence == 0`" if not rec[1] else "confidences differ"),
                         "stage": "convert-after-edit", "backend": kind, "D": D, "odd_conf": odd_conf}
+        for kind, rec in (case.get("_f64") or {}).items():
+            if rec[0] != "ok" or not (rec[2] and rec[3] and rec[4]):
+                return {"what": "binary64 NumPy body .%s(): %s" % (kind, "raises " + rec[1] if rec[0] != "ok" else
+                        "coordinates differ (dtype %s)" % rec[1] if not rec[2] else "confidences differ (dtype %s)" % rec[1] if not rec[3] else
+                        "missing pattern is not `confidence == 0`"), "stage": "convert-float64", "backend": kind, "D": D, "odd_conf": odd_conf}
         for j, op in enumerate(case["ops"]):
             edge = op_edge(case, op)
             # a negative index leaves the common domain only on TensorFlow (tf.gather rejects it); NumPy and Torch share
@@ -788,8 +817,8 @@ class C08(common.Prop):
             if bk in ("torch", "tensorflow") and failure.get("odd_conf") and "valid differs" in what:
                 return "validity-rule-negative-or-nan-confidence"
             return "%s-%s" % (st, bk)
-        if st == "convert-after-edit":
-            return "convert-after-edit-%s" % bk
+        if st in ("convert-after-edit", "convert-float64"):
+            return "%s-%s" % (st, bk)
         op = failure.get("op")
         if failure.get("edge"):
             return "%s-%s-%s" % (op, bk, failure["edge"])
